@@ -48,6 +48,7 @@ _word = (
     r'(?:[\w$]|' + LETTER + r'|' + DIGIT + r'|' + COMBINING_MARK + r'|' +
     CONNECTOR_PUNCTUATION + r')')
 # a '/' followed by the '/' of a regex literal would start a line comment
+word = re.compile(_word)
 required_space = re.compile(
     r'^(?:' + _word + _word + r'|\+\+|\-\-|//)$')
 
@@ -171,8 +172,14 @@ def layout_handler_newline_optional_pretty(
 def is_space_required(before, after):
     # also, a '.' directly after a decimal integer literal would be read
     # as its decimal point (1 .toString() is not 1.toString()).
-    return bool(required_space.match(before[-1:] + after[:1])) or (
-        after[:1] == '.' and before.isdigit())
+    if required_space.match(before[-1:] + after[:1]) or (
+            after[:1] == '.' and before.isdigit()):
+        return True
+    # likewise a name or keyword directly after a regex literal without
+    # flags (/re/ in x) or after a number ending in a dot (5. in x) would
+    # become its flags, or follow a numeric literal immediately.
+    return (len(before) > 1 and before[-1:] in ('/', '.') and
+            bool(word.match(after[:1])))
 
 
 def layout_handler_space_optional_pretty(
